@@ -341,13 +341,19 @@ def run_unit(ctx, unit):
     if kind == "option":
         rows = unit["rows"]
         lines = []
+        # the members the keys read are called k0, k1, ... or, now and then, something that ends like a direction word
+        # (`.desc`, `.price_asc`): a key without a direction is that member, ascending
+        alias = {}
+        if rng.random() < 0.15:
+            for k, nm in zip(sorted(set(k for k, _ in unit["keys"])), rng.sample(["desc", "asc", "price_asc", "nameDesc", "xASC", "DESC", "k desc".replace(" ", "_")], 3)):
+                alias["k%d" % k] = nm
         for r in rows:
-            parts = ['"s":%d' % r["s"]] + ['"%s":%s' % (k, UNIVERSE[v]) for k, v in r.items() if k != "s"]
+            parts = ['"s":%d' % r["s"]] + ['"%s":%s' % (alias.get(k, k), UNIVERSE[v]) for k, v in r.items() if k != "s"]
             lines.append("{" + ",".join(parts) + "}")
         args = []
         for k, desc in unit["keys"]:
             # the key is an expression like any other: written with a call, with commas between arguments, with a comma in a literal
-            key = rng.choice((".k%d", ".k%d", ".k%d", '(get . "k%d")', "(default .k%d, .k%d)", '(? true .k%d "x, y")', "(| . .k%d)")).replace("%d", str(k))
+            key = rng.choice((".k%d", ".k%d", ".k%d", '(get . "k%d")', "(default .k%d, .k%d)", '(? true .k%d "x, y")', "(| . .k%d)")).replace("k%d", alias.get("k%d" % k, "k%d" % k))
             args.append("--sort-by=%s%s" % (key, spell_dir(rng, desc)))
         args += ["--select=.s=s"]
         # a bounded sort (the rows beyond skip+take may be dropped while sorting) is the same order, cut
